@@ -21,7 +21,7 @@ def step (line : String) : String :=
       match dBundle b, dStr p with
       | some b, some p => outcomeSkel (compileLinked b p)
       | _, _ => "bad-op"
-    | "total.ast", b :: p :: _ =>
+    | "total.neg", _ :: b :: p :: _ | "total.ast", b :: p :: _ =>
       match dBundle b, dStr p with
       | some b, some p => (compileLinked b p).cls
       | _, _ => "bad-op"
